@@ -278,14 +278,21 @@ def check_memo_reset(prog, run, classes, scope, floor):
         for m in c.methods.values():
             if m.name == "__init__":
                 continue
-            reset = set()
+            reset, kept = set(), set()
             for n in own_walk(m.node):
                 if isinstance(n, (ast.Assign, ast.AnnAssign)):
                     tg = n.targets if isinstance(n, ast.Assign) else [n.target]
                     for t in tg:
                         if isinstance(t, ast.Attribute) and isinstance(t.value, ast.Name) and t.value.id == "self" and n.value is not None \
                                 and _fresh_container(n.value):
-                            reset.add("self." + t.attr)
+                            # a table rebuilt *from itself* (a filtering comprehension over its own items) is not started afresh:
+                            # whatever the filter keeps still answers from before the change
+                            carried = any(isinstance(x, ast.Attribute) and x.attr == t.attr and isinstance(x.value, ast.Name) and x.value.id == "self"
+                                          and isinstance(x.ctx, ast.Load) for x in ast.walk(n.value))
+                            if carried:
+                                kept.add("self." + t.attr)
+                            else:
+                                reset.add("self." + t.attr)
                 elif isinstance(n, ast.Call) and isinstance(n.func, ast.Attribute) and n.func.attr == "clear" and _txt(n.func.value) in tables:
                     reset.add(_txt(n.func.value))
             if reset & set(tables):
